@@ -235,7 +235,11 @@ fn judge_project(files: &[(String, String)], input: &Value, ctx: &mut Ctx) -> Ca
         // (c) another root, files and directories created in the opposite order
         let root2 = dir.join("elsewhere").join("deeper").join("b");
         projgen::materialise_perm(&root2, files, &perm2);
-        let o3 = everything(&root2, &dir.join("art3"), &main_src)?;
+        // ... and a package's files handed to check/build in another order
+        sep::FILE_ORDER.store(1, std::sync::atomic::Ordering::Relaxed);
+        let o3 = everything(&root2, &dir.join("art3"), &main_src);
+        sep::FILE_ORDER.store(0, std::sync::atomic::Ordering::Relaxed);
+        let o3 = o3?;
         if let Some((class, d)) = first_diff(&o1, &o3) {
             return Err((format!("C13|other-root-and-order|{class}"), d));
         }
